@@ -139,4 +139,43 @@ Definition dispatch (i : info) (ignore_env : string) (args : list string) : list
     | None => ([], Listed)
     end
   else loop i args (length args) 0.
+
+(* ---- the whole generated main, with what the mode flags do.
+   fs.Parse(os.Args[1:]) takes the leading flags; args.Args = fs.Args() are the words.  The mode
+   (how the program was started) is: os.Args[0], -v / MAGEFILE_VERBOSE, MAGEFILE_DEBUG, -t /
+   MAGEFILE_TIMEOUT.  The only thing the dispatcher does with it: with Verbose it logs
+   "Running target: <TargetName>" after the argument-count check and before the conversions.
+   os.Args[0] is used for the usage text only, the timeout bounds the context (C12), debug is
+   not read.  [loop_v] is [loop] with that logging statement transcribed too; the log is the
+   second component. *)
+Record mode := { m_argv0 : string; m_verbose : bool; m_debug : bool; m_timeout : option string }.
+
+Fixpoint loop_v (verbose : bool) (i : info) (args : list string) (fuel x : nat) : (list callrec * exit) * list string :=
+  if (length args <=? x)%nat then (([], Done), []) else
+  match fuel with
+  | 0 => (([], OutOfFuel), [])
+  | S fuel' =>
+      let target := nth x args "" in
+      let x := S x in
+      let target := alias_switch (aliases i) (lower target) target in
+      match target_switch (switch_cases i) (lower target) with
+      | None => (([], Exit2 Unknown), [])
+      | Some t =>
+          let expected := x + length (targs t) in
+          if (length args <? expected)%nat then (([], Exit2 Missing), [])
+          else
+            let lg := if verbose then [tname t] else [] in     (* if args.Verbose { logger.Println("Running target:", ...) } *)
+            match parse_args args (targs t) x with
+            | (inl ty, _) => (([], Exit2 (BadArg ty)), lg)
+            | (inr vs, x') =>
+                let c := mkcall t vs in
+                if fails (tdef t) vs then (([c], Failed), lg)
+                else let '((cs, e), l) := loop_v verbose i args fuel' x' in ((c :: cs, e), lg ++ l)
+            end
+      end
+  end.
+
+Definition main (m : mode) (i : info) (ignore_env : string) (args : list string) : (list callrec * exit) * list string :=
+  if (length args <? 1)%nat then (dispatch i ignore_env args, [])
+  else loop_v (m_verbose m) i args (length args) 0.
 End Run.
